@@ -225,3 +225,49 @@ Section Atoms.
           replace (length cs - length cs) with 0 by lia. reflexivity.
   Qed.
 End Atoms.
+
+(* ------------------------------------------------------------------ *)
+(* 4. symmetry of the assembled matrices (C07)                           *)
+(* ------------------------------------------------------------------ *)
+Lemma fold_left_ext_local {A B} (f g : A -> B -> A) l a : (forall acc x, In x l -> f acc x = g acc x) -> fold_left f l a = fold_left g l a.
+Proof. revert a. induction l as [|x l IH]; intros a H; cbn; [reflexivity|]. rewrite H by (now left). apply IH. intros; apply H; now right. Qed.
+
+Section Symmetry.
+  Context {T : Type} (o : NumOps T).
+  Variable shell_l shell_atom ecp_atom : list nat.
+  Variable natoms : nat.
+
+  Lemma ordered_swap gk gl :
+    fst (locate shell_l gk 0) <> fst (locate shell_l gl 0) ->
+    ordered shell_l gk gl = ordered shell_l gl gk.
+  Proof.
+    intros Hne. unfold ordered. set (a := locate shell_l gk 0) in *. set (b := locate shell_l gl 0) in *.
+    destruct (Nat.leb_spec (fst b) (fst a)), (Nat.leb_spec (fst a) (fst b)); try reflexivity; lia.
+  Qed.
+
+  (* entries in two different shells: (gk,gl) and (gl,gk) are the same expression, whatever the blocks *)
+  Theorem integrals_symmetric_off mask blk0 gk gl :
+    fst (locate shell_l gk 0) <> fst (locate shell_l gl 0) ->
+    integrals_entry o shell_l ecp_atom mask blk0 gk gl = integrals_entry o shell_l ecp_atom mask blk0 gl gk.
+  Proof. intros H. unfold integrals_entry. now rewrite (ordered_swap gk gl H). Qed.
+  Theorem first_symmetric_off blk1 idx gk gl :
+    fst (locate shell_l gk 0) <> fst (locate shell_l gl 0) ->
+    first_entry o shell_l shell_atom ecp_atom blk1 idx gk gl = first_entry o shell_l shell_atom ecp_atom blk1 idx gl gk.
+  Proof. intros H. unfold first_entry. now rewrite (ordered_swap gk gl H). Qed.
+  Theorem second_symmetric_off blk2 idx gk gl :
+    fst (locate shell_l gk 0) <> fst (locate shell_l gl 0) ->
+    second_entry o shell_l shell_atom ecp_atom natoms blk2 idx gk gl = second_entry o shell_l shell_atom ecp_atom natoms blk2 idx gl gk.
+  Proof. intros H. unfold second_entry. now rewrite (ordered_swap gk gl H). Qed.
+
+  (* entries inside one shell's diagonal block: symmetric as soon as that block is *)
+  Theorem integrals_symmetric_diag mask blk0 gk gl :
+    fst (locate shell_l gk 0) = fst (locate shell_l gl 0) ->
+    (forall s e k l, blk0 s s e k l = blk0 s s e l k) ->
+    integrals_entry o shell_l ecp_atom mask blk0 gk gl = integrals_entry o shell_l ecp_atom mask blk0 gl gk.
+  Proof.
+    intros He Hs. unfold integrals_entry, ordered.
+    destruct (locate shell_l gk 0) as [s1 k], (locate shell_l gl 0) as [s2 l]. cbn [fst snd] in *. subst s2.
+    rewrite Nat.leb_refl.
+    apply fold_left_ext_local. intros acc e _. destruct (mask s1 e); [|reflexivity]. now rewrite Hs.
+  Qed.
+End Symmetry.
